@@ -368,7 +368,7 @@ INFO = {
                   'db.shelve.model.Interface._update'],
     'bounds': {
         'quick': 'histories start from an empty catalogue and from a warm one (12 algorithms registered, so that catalogue ids 1 and 10.. coexist); names: all strings of <=3 characters (round trip, CrossHair); selection lemma (AST->SMT): all pairs of names of 1..6 characters, parents from {0,1,3,10,11}, versions none/1.1.0/1.10.2; histories of <=3 operations from 24 kinds (incl. the worm tool with run id 0, a run id, a target); directed family: the addressed algorithm stored under two versions (update, bump, update), then 2 free operations',
-        'thorough': 'round trip: names <=4 characters; selection lemma: names of 1..12 characters; histories of <=4 operations',
+        'thorough': 'round trip: names <=4 characters; selection lemma: names of 1..12 characters; histories of <=4 operations from the empty catalogue whose first operation is any update of ta.a or the first update kind of ta.a2 / ta2.a, and from the warm catalogue starting with any update; two-version family with 3 free operations',
     },
     'assumptions': ['names contain none of the reserved separator characters ":" and "_" (compliance rules forbid "." only; the separators are DAWGIE-internal)',
                     'history world: real dbm files, routed requests, in-memory blob store; parents/versions/run ids from pools'],
@@ -392,7 +392,7 @@ def obligations(tier):
         if tier == 'quick':
             out.append(ob.make(f'hist-k{k}-{first}', 'hist', 'vp.harness.c08:hist_body', ', '.join(f'{v}: int' for v in free), [' and '.join(f'0 <= {v} < {n}' for v in free)],
                                f"{{'k': {k}, 'sel': [{first}, {', '.join(free)}]}}", timeout=900))
-        else:
+        elif first < 4 or first % 4 == 0:  # every update of ta.a, and the first slot of the other two algorithms
             for second in range(n):
                 out.append(ob.make(f'hist-k{k}-{first}.{second}', 'hist', 'vp.harness.c08:hist_body', ', '.join(f'{v}: int' for v in free), [' and '.join(f'0 <= {v} < {n}' for v in free)],
                                    f"{{'k': {k}, 'sel': [{first}, {second}, {', '.join(free)}]}}", timeout=3000))
